@@ -19,8 +19,12 @@ def main():
     d = tempfile.mkdtemp(prefix='snoopy-mut-')
     sc = os.path.join(d, 'repo')
     try:
-        subprocess.check_call(['rsync', '-a', '--exclude', '.git', '--exclude', '*.o', '--exclude', '*.lo',
-                               '--exclude', '.libs', '/repo/', sc + '/'])
+        rc = subprocess.call(['rsync', '-a', '--exclude', '.git', '--exclude', '*.o', '--exclude', '*.lo',
+                              '--exclude', '.libs', '--exclude', '/tests', '--exclude', '*.log', '--exclude', '*.trs',
+                              '/repo/', sc + '/'], stderr=subprocess.DEVNULL)
+        if rc not in (0, 24):
+            print('rsync failed', rc)
+            return 3
         muts = []
         while args and args[0] in ('-p', '-r'):
             if args[0] == '-p':
